@@ -36,6 +36,12 @@ impl Tx<P> {
             Tx::A(s) => block_on(s.send_batch(v)).norm(),
         }
     }
+    fn close(&mut self) -> Res {
+        match self {
+            Tx::S(s) => s.close().norm(),
+            Tx::A(s) => s.close().norm(),
+        }
+    }
 }
 impl Rx<P> {
     fn recv(&self) -> Res {
@@ -48,6 +54,25 @@ impl Rx<P> {
         match self {
             Rx::S(r) => r.try_recv().norm(),
             Rx::A(r) => r.try_recv().norm(),
+        }
+    }
+    fn recv_batch(&self, max: usize) -> Res {
+        match self {
+            Rx::S(r) => r.recv_batch(max).norm(),
+            Rx::A(r) => block_on(r.recv_batch(max)).norm(),
+        }
+    }
+    /// sync only: recv_timeout(1 h) — hook H7 turns the timed park into an untimed loom park
+    fn recv_tlong(&self) -> Res {
+        match self {
+            Rx::S(r) => r.recv_timeout(std::time::Duration::from_secs(3600)).norm(),
+            Rx::A(_) => panic!("MACHINERY|recv_timeout on an async handle"),
+        }
+    }
+    fn close(&self) -> Res {
+        match self {
+            Rx::S(r) => r.close().norm(),
+            Rx::A(r) => r.close().norm(),
         }
     }
     /// async only: create the recv future, poll it once, drop it
@@ -87,6 +112,14 @@ pub enum BStep {
     RecvPollDrop,
     /// recv until Disconnected
     Drain,
+    /// recv_batch(max) until Disconnected
+    DrainBatch(usize),
+    /// recv_timeout(1 h)
+    RecvTLong,
+    /// explicit close() of the receiver (the handle is dropped at the end of the program)
+    CloseRx,
+    /// explicit close() of the sender
+    CloseTx,
     /// clone the thread's receiver; the clone becomes the thread's second receiver (handle 2)
     CloneRx,
     /// try_recv on both own receivers in turn (+ yield) until both are Disconnected
@@ -110,6 +143,8 @@ pub struct BcastScen {
     pub threads: Vec<BThread>,
     /// async handles on both sides (`spmc::bounded_async`)
     pub asyn: bool,
+    /// 0: native pair; 1: sync sender, receivers converted with to_async(); 2: sender converted with to_async(), sync receivers
+    pub mix: u8,
 }
 
 const MAX_DRAIN: usize = 10;
@@ -162,6 +197,33 @@ fn run_thread(t: u8, prog: BThread, mut tx: Option<Tx<P>>, mut rx: Option<Rx<P>>
                         break;
                     }
                 }
+            }
+            BStep::DrainBatch(n) => {
+                let op = Op::RecvBatch(n);
+                for _ in 0..MAX_DRAIN {
+                    rt::log_call(t, rh, &op);
+                    let r = rx.as_ref().expect("rx").recv_batch(n);
+                    let done = r == Res::Disc;
+                    rt::log_ret(t, rh, &op, r, true);
+                    if done {
+                        break;
+                    }
+                }
+            }
+            BStep::RecvTLong => {
+                rt::log_call(t, rh, &Op::RecvTLong);
+                let r = rx.as_ref().expect("rx").recv_tlong();
+                rt::log_ret(t, rh, &Op::RecvTLong, r, true);
+            }
+            BStep::CloseRx => {
+                rt::log_call(t, rh, &Op::CloseRx);
+                let r = rx.as_ref().expect("rx").close();
+                rt::log_ret(t, rh, &Op::CloseRx, r, true);
+            }
+            BStep::CloseTx => {
+                rt::log_call(t, 0, &Op::CloseTx);
+                let r = tx.as_mut().expect("tx").close();
+                rt::log_ret(t, 0, &Op::CloseTx, r, true);
             }
             BStep::CloneRx => {
                 rt::log_call(t, 2, &Op::CloneRx);
@@ -225,7 +287,13 @@ fn join_all(t: u8, joins: &mut Vec<loom::thread::JoinHandle<()>>) {
 }
 
 pub fn run_once(sc: &BcastScen) {
-    let (tx, rx0) = if sc.asyn {
+    let (tx, rx0) = if sc.mix == 1 {
+        let (t, r) = fibre::spmc::bounded::<P>(sc.cap);
+        (Tx::S(t), Rx::A(r.to_async()))
+    } else if sc.mix == 2 {
+        let (t, r) = fibre::spmc::bounded::<P>(sc.cap);
+        (Tx::A(t.to_async()), Rx::S(r))
+    } else if sc.asyn {
         let (t, r) = fibre::spmc::bounded_async::<P>(sc.cap);
         (Tx::A(t), Rx::A(r))
     } else {
@@ -292,7 +360,7 @@ fn check(sc: &BcastScen) {
                     oracle_fail("C07", "blocking_send_reported_full", "send", "a waiting send returned Full");
                 }
             }
-            (Op::DropTx, _) => tx_drop_call = o.call,
+            (Op::DropTx | Op::CloseTx, _) => tx_drop_call = tx_drop_call.min(o.call),
             _ => {}
         }
     }
@@ -317,14 +385,23 @@ fn check(sc: &BcastScen) {
                 let start = rs.get(&parent).map(|r| r.start + r.got.len()).unwrap_or(0);
                 rs.insert(o.h, R { start, created: o.ret, drop_call: usize::MAX, got: vec![], disc: None });
             }
-            (Op::Recv | Op::TryRecv | Op::RecvPollDrop, Res::Val(v)) => {
+            (Op::Recv | Op::TryRecv | Op::RecvPollDrop | Op::RecvTLong, Res::Val(v)) => {
                 let r = rs.get_mut(&o.h).expect("receiver");
                 if let Some(d) = r.disc {
                     oracle_fail("C07", "value_after_disconnected", "recv", &format!("R{} obtained {} after Disconnected at log position {}", o.h, v, d));
                 }
                 r.got.push((*v, o.call));
             }
-            (Op::Recv | Op::TryRecv | Op::RecvPollDrop, Res::Disc) => {
+            (Op::RecvBatch(_), Res::Vals(vs)) => {
+                let r = rs.get_mut(&o.h).expect("receiver");
+                if let (Some(d), Some(v)) = (r.disc, vs.first()) {
+                    oracle_fail("C07", "value_after_disconnected", "recv_batch", &format!("R{} obtained {} after Disconnected at log position {}", o.h, v, d));
+                }
+                for v in vs {
+                    r.got.push((*v, o.call));
+                }
+            }
+            (Op::Recv | Op::TryRecv | Op::RecvPollDrop | Op::RecvTLong | Op::RecvBatch(_), Res::Disc) => {
                 if o.ret < tx_drop_call {
                     oracle_fail("C07", "disconnected_while_sender_alive", "recv", &format!("R{} observed Disconnected before the sender started dropping", o.h));
                 }
@@ -333,9 +410,10 @@ fn check(sc: &BcastScen) {
                     r.disc = Some(o.ret);
                 }
             }
-            (Op::DropRx, _) => {
+            (Op::DropRx | Op::CloseRx, _) => {
+                // a receiver stops holding the producer back from the moment its close()/drop is called
                 if let Some(r) = rs.get_mut(&o.h) {
-                    r.drop_call = o.call;
+                    r.drop_call = r.drop_call.min(o.call);
                 }
             }
             _ => {}
@@ -389,18 +467,21 @@ fn sc(name: &str, cap: usize, n_rx: u8, threads: Vec<BThread>, pb: (Option<usize
     sc_x(name, cap, n_rx, threads, pb, false)
 }
 fn sc_x(name: &str, cap: usize, n_rx: u8, threads: Vec<BThread>, pb: (Option<usize>, Option<usize>), asyn: bool) -> Scenario {
+    sc_m(name, cap, n_rx, threads, pb, asyn, 0)
+}
+fn sc_m(name: &str, cap: usize, n_rx: u8, threads: Vec<BThread>, pb: (Option<usize>, Option<usize>), asyn: bool, mix: u8) -> Scenario {
     let shape = format!("{}_cap{}", name, cap);
     Scenario {
         name: format!("spmc_broadcast/{}", shape),
         component: "spmc_broadcast".into(),
         shape,
-        props: if asyn { vec!["C07", "C06", "C09"] } else { vec!["C07", "C05", "C09"] },
+        props: if mix != 0 { vec!["C07", "C05", "C06", "C09"] } else if asyn { vec!["C07", "C06", "C09"] } else { vec!["C07", "C05", "C09"] },
         threads: threads.len(),
         ops: threads.iter().map(|t| t.steps.len()).max().unwrap_or(0),
         cap: cap.to_string(),
         pb_quick: pb.0,
         pb_thorough: pb.1,
-        body: Body::Bcast(BcastScen { cap, n_rx, threads, asyn }),
+        body: Body::Bcast(BcastScen { cap, n_rx, threads, asyn, mix }),
     }
 }
 
@@ -456,5 +537,25 @@ fn base_scenarios() -> Vec<Scenario> {
         sc_x("async_txdrop_vs_recv", 1, 1, vec![bt(false, Some(0), vec![TryRecv, Recv]), bt(true, None, vec![])], t2, true),
         sc_x("async_send_batch2_drain", 1, 1, vec![bt(false, Some(0), vec![Drain]), bt(true, None, vec![SendBatch(vec![1, 2])])], t2, true),
         sc_x("async_clone_vs_send2", 1, 1, vec![bt(true, None, vec![Send(1), Send(2)]), bt(false, Some(0), vec![TryRecv, CloneRx, DrainBothTry])], t2, true),
+        // ---- explicit close() instead of drop: a closed receiver releases the producer; a closed sender disconnects
+        sc("rxclose_vs_parked_producer", 1, 1, vec![bt(true, None, vec![Send(1), Send(2)]), bt(false, Some(0), vec![CloseRx])], t2),
+        sc("slow_rx_closed_vs_parked_producer", 1, 2, vec![bt(true, None, vec![Send(1), Send(2)]), bt(false, Some(0), vec![Drain]), bt(false, Some(1), vec![CloseRx])], t3),
+        sc("txclose_vs_recv", 1, 1, vec![bt(false, Some(0), vec![TryRecv, Drain]), bt(true, None, vec![Send(1), CloseTx])], t2),
+        sc_x("async_rxclose_vs_pending_producer", 1, 1, vec![bt(true, None, vec![Send(1), Send(2)]), bt(false, Some(0), vec![CloseRx])], t2, true),
+        sc_x("async_txclose_vs_recv", 1, 1, vec![bt(false, Some(0), vec![TryRecv, Drain]), bt(true, None, vec![Send(1), CloseTx])], t2, true),
+        // ---- batch receives
+        sc("send2_vs_drain_batch2", 1, 1, vec![bt(false, Some(0), vec![DrainBatch(2)]), bt(true, None, vec![Send(1), Send(2)])], t2),
+        sc("send3_vs_drain_batch2", 2, 1, vec![bt(false, Some(0), vec![TryRecv, DrainBatch(2)]), bt(true, None, vec![Send(1), Send(2), Send(3)])], t2),
+        sc("send_batch2_vs_drain_batch2", 2, 1, vec![bt(false, Some(0), vec![DrainBatch(2)]), bt(true, None, vec![SendBatch(vec![1, 2]), Send(3)])], t2),
+        sc_x("async_send2_vs_drain_batch2", 1, 1, vec![bt(false, Some(0), vec![DrainBatch(2)]), bt(true, None, vec![Send(1), Send(2)])], t2, true),
+        // ---- the timed receive parks for real (hook H7) and must be woken by a send / by the sender going away
+        sc("tlong_vs_send", 1, 1, vec![bt(false, Some(0), vec![TryRecv, RecvTLong, Drain]), bt(true, None, vec![Send(1)])], t2),
+        sc("tlong_vs_txdrop", 1, 1, vec![bt(false, Some(0), vec![RecvTLong]), bt(true, None, vec![])], t2),
+        // ---- sync and async handles mixed on one channel
+        sc_m("mix_synctx_asyncrx_send2_drain", 1, 1, vec![bt(false, Some(0), vec![TryRecv, Drain]), bt(true, None, vec![Send(1), Send(2)])], t2, false, 1),
+        sc_m("mix_asynctx_syncrx_send2_drain", 1, 1, vec![bt(false, Some(0), vec![TryRecv, Drain]), bt(true, None, vec![Send(1), Send(2)])], t2, false, 2),
+        sc_m("mix_synctx_asyncrx_rxdrop_vs_parked_producer", 1, 1, vec![bt(true, None, vec![Send(1), Send(2)]), bt(false, Some(0), vec![DropRx])], t2, false, 1),
+        sc_m("mix_asynctx_syncrx_rxdrop_vs_pending_producer", 1, 1, vec![bt(true, None, vec![Send(1), Send(2)]), bt(false, Some(0), vec![DropRx])], t2, false, 2),
+        sc_m("mix_synctx_asyncrx_1p2c_send2_drain", 1, 2, vec![bt(true, None, vec![Send(1), Send(2)]), bt(false, Some(0), vec![Drain]), bt(false, Some(1), vec![Drain])], t3, false, 1),
     ]
 }
